@@ -5,6 +5,7 @@ Search: A, B processed alone vs A+B in one file (both orders, separations from j
 spans > 1000 A), incl. a structure with its own copy, ligand copies sharing a chain identifier, and a cluster on which the iterative
 scheme stops at its sweep limit."""
 import math
+import os
 from decimal import Decimal
 
 from vlib import common, gen, genval, structures
@@ -230,8 +231,19 @@ def run(chk: common.Check):
     pairs.append(("conf-alt-AB", S("conf-alt-AB.pdb"), {" ": "A", "A": "A"}, "conf-alt-BC", S("conf-alt-BC.pdb"), {" ": "B", "A": "B"}))
     # a far part whose own iterative solution needs several sweeps, next to the sweep-limit cluster
     pairs.append(("4DFR complex A", partA, {"A": "A"}, "carboxylate triangle", tri, {"Q": "Q"}))
+    # coupled systems (N+ 7 I / ASP 7 I) in both parts, with their common charge centre switched on in the parameter file
+    from props.c02 import cfg_variant
+    ccc_cfg = cfg_variant(common_charge_centre=1)
+    chain_i = "\n".join(l for l in S("3SGB.pdb").splitlines() if structures.is_atom(l) and l[21] == "I" and l[:6] == "ATOM  ") + "\n"
+    pairs.append(("3SGB chain I", chain_i, {"I": "I"}, "its own copy", chain_i, {"I": "J"}, {"opts": ["-p", ccc_cfg], "tag": " (common_charge_centre 1)"}))
+    # the first part ends without its terminal oxygen and the parts are separated by a bare, unpadded TER record
+    no_oxt = "\n".join(l for l in chain_i.splitlines() if l[12:16].strip() != "OXT") + "\n"
+    pairs.append(("3SGB chain I without OXT", no_oxt, {"I": "I"}, "3SGB chain I", chain_i, {"I": "J"}, {"sep": "TER", "tag": " (bare TER between the parts)"}))
     gaps = [25.5, 60.0, 1200.0] + ([26.0, 300.0, 5000.0] if chk.thorough else [])
-    for na, ta, ma, nb, tb, mb in pairs:
+    for na, ta, ma, nb, tb, mb, *extra in pairs:
+        extra = extra[0] if extra else {}
+        opts, sep = extra.get("opts", []), extra.get("sep", "TER   ")
+        nb = nb + extra.get("tag", "")
         la = "\n".join(relabel(ta, ma, 0)) + "\n"
         lb0 = "\n".join(relabel(tb, mb, 20000)) + "\n"
         chains_a = set(l[21] for l in structures.atom_lines(la))
@@ -240,7 +252,7 @@ def run(chk: common.Check):
         if shared:
             continue
         try:
-            ra = structures.records(structures.run(la + "END\n")[0])
+            ra = structures.records(structures.run(la + "END\n", opts)[0])
         except Exception as ex:   # noqa: BLE001
             found.append(("crash-alone", f"{na}: {type(ex).__name__}: {ex}", {"case": na}))
             continue
@@ -248,15 +260,15 @@ def run(chk: common.Check):
             axis = rng.randrange(3)
             lb, sh = separated(la, lb0, gap, axis)
             try:
-                rb = structures.records(structures.run(lb + "END\n")[0])
+                rb = structures.records(structures.run(lb + "END\n", opts)[0])
             except Exception as ex:   # noqa: BLE001
                 found.append(("crash-alone", f"{nb} moved by {sh}: {type(ex).__name__}: {ex}", {"case": nb, "shift": sh}))
                 continue
-            for order, text in (("A then B", la.rstrip("\n") + "\nTER   \n" + lb + "END\n"), ("B then A", lb.rstrip("\n") + "\nTER   \n" + la + "END\n")):
+            for order, text in (("A then B", la.rstrip("\n") + f"\n{sep}\n" + lb + "END\n"), ("B then A", lb.rstrip("\n") + f"\n{sep}\n" + la + "END\n")):
                 what = f"{na} + {nb}, gap {gap} A along axis {axis}, {order}"
-                rep = {"case": what, "gap": gap, "axis": axis, "order": order, "pdb_text": text if len(text) < 400000 else None}
+                rep = {"case": what, "gap": gap, "axis": axis, "order": order, "options": [o if not o.startswith("/var/tmp") else "propka.cfg with common_charge_centre 1" for o in opts], "pdb_text": text if len(text) < 400000 else None}
                 try:
-                    rc = structures.records(structures.run(text)[0])
+                    rc = structures.records(structures.run(text, opts)[0])
                 except Exception as ex:   # noqa: BLE001
                     found.append((f"crash-combined:{type(ex).__name__}", f"{what}: {type(ex).__name__}: {ex} (each part alone is processed)", rep))
                     continue
@@ -274,6 +286,7 @@ def run(chk: common.Check):
                                       f"{what}: {len(d)} results of {part} differ from processing it alone, e.g. {d[0][1:]}",
                                       dict(rep, differences=[list(map(str, x)) for x in d[:6]])))
                         break
+    os.unlink(ccc_cfg)
     chk.sample({"pairs": [(p[0], p[3]) for p in pairs], "gaps": gaps})
     uniq = {}
     for sig, what, rep in found:
